@@ -10,7 +10,7 @@ import re
 from hypothesis import strategies as st
 
 from vf import lab
-from vf.core import Prop, Outcome
+from vf.core import Prop, Outcome, fd
 
 from deep.api.tracepoint.trigger import build_trigger
 
@@ -102,7 +102,7 @@ class C16(Prop):
                          st.tuples(st.just('field'), st.sampled_from(BAD)))
         raw_alphabet = st.sampled_from(list('{}{}{}!:.[]()%\'" ') + ['name', 'count', 'x', '1', '+', 'é', '\n'])
         raw = st.lists(raw_alphabet, max_size=14).map(lambda l: [['raw', ''.join(l)]])
-        return st.fixed_dictionaries({
+        return fd({
             'parts': st.one_of(st.lists(part, max_size=9).map(lambda l: [list(p) for p in l]),
                                st.lists(part, max_size=9).map(lambda l: [list(p) for p in l]),
                                st.lists(part, max_size=9).map(lambda l: [list(p) for p in l]), raw),
@@ -111,6 +111,7 @@ class C16(Prop):
             'count': st.integers(0, 5),
             'flag': st.booleans(),
             'watches': st.lists(st.sampled_from(['name', 'count', 'nope']), max_size=1),
+            'logger': st.sampled_from(['recording', 'recording', 'python_plugin']),
         })
 
     def run_case(self, recipe):
@@ -149,7 +150,27 @@ class C16(Prop):
             out.cls('log_and_snapshot')
         trig = build_trigger('tp-log-1', PATH, LINE, args, list(recipe['watches']) if recipe['collect'] else [], [])
         logger = lab.RecLogger()
+        stock = recipe.get('logger') == 'python_plugin'
         handler, cfg, push = lab.make_handler([trig], plugins=[logger])
+        records = []
+        if stock:
+            # the stock tracepoint logger (PythonPlugin) writes through the deep logger: observe the emitted record
+            import logging
+            from deep.api.plugin.python import PythonPlugin
+            out.cls('stock_python_logger')
+            cfg.plugins = [PythonPlugin(config=cfg)]
+
+            class Grab(logging.Handler):
+                def emit(self, record):
+                    try:
+                        records.append(record.getMessage())
+                    except BaseException as e:      # noqa - what logging itself would report as a logging error
+                        records.append('<unrenderable record: %s>' % type(e).__name__)
+            grab = Grab(level=logging.INFO)
+            dl = logging.getLogger('deep')
+            old_level = dl.level
+            dl.setLevel(logging.INFO)
+            dl.addHandler(grab)
         fc = int(recipe['fire_count'])
         for hit in range(3):
             lab.CLOCK.advance_ms(1)
@@ -175,6 +196,27 @@ class C16(Prop):
                 out.violate('trace_call raised %s' % lab.exc_bucket(e))
             gen.close()
             permitted = fc == -1 or hit < fc
+            if stock:
+                if raw_mode and not WELL_FORMED.match(template):
+                    continue
+                got = [r for r in records if '[deep]' in r or 'unrenderable' in r]
+                del records[:]
+                if len(got) != (1 if permitted else 0):
+                    out.violate('stock logger: %d emitted records on a %s hit' % (len(got), 'permitted' if permitted
+                                                                                  else 'refused'), {'template': template})
+                    break
+                if permitted:
+                    line = got[0]
+                    if not line.startswith(exp_msg):
+                        out.violate('stock logger: emitted record does not carry the rendered message',
+                                    {'expected': exp_msg[:120], 'got': line[:160]})
+                        break
+                    if 'tracepoint=tp-log-1' not in line[len(exp_msg):] or not re.search(
+                            r'ctx=[0-9a-f]{8}-[0-9a-f]{4}-', line[len(exp_msg):]):
+                        out.violate('stock logger: emitted record is not labelled with tracepoint id and context id',
+                                    {'got': line[-120:]})
+                        break
+                continue
             new_logs = logger.calls[n_log:]
             new_snaps = push.snapshots[n_snap:]
             if len(new_logs) != (1 if permitted else 0):
@@ -230,6 +272,9 @@ class C16(Prop):
                 if new_snaps:
                     out.violate('log-only tracepoint produced a snapshot')
                     break
+        if stock:
+            dl.removeHandler(grab)
+            dl.setLevel(old_level)
         lab.reset_world()
         return out
 
